@@ -903,6 +903,11 @@ func runC13(c *Ctx) error {
 		x.i = 3*n + i
 		x.edgeCase(c.rng.Fork())
 	}
+	for i := 0; i < c.N(400, 6000); i++ {
+		x.i = 4*n + i
+		x.historyCase(c.rng.Fork())
+	}
+	x.fixedHistory()
 	x.valueVsText()
 	x.endToEnd(c.rng.Fork())
 	x.fixedCases()
